@@ -2,9 +2,9 @@ package rules
 
 import (
 	"fmt"
-	"strings"
 	"go/token"
 	"go/types"
+	"strings"
 
 	"golang.org/x/tools/go/ssa"
 
@@ -304,7 +304,6 @@ func checkExitRegion(e *Env, p *load.Program, key string, from, fail *ssa.BasicB
 		r.OK("E3.exit", key, p.Pos(fail.Instrs[0].Pos()), "ends in os.Exit(non-zero) without starting a process")
 	}
 }
-
 
 // zeroExit: the never-returning call can end the process with status 0 (os.Exit(0) or a non-constant status), directly or
 // inside a helper of the module; returns the offending call.
